@@ -128,11 +128,32 @@ def comment_accounting(src, rt, src_toks, exempt=()):
             continue          # `//` and the like occur inside every other comment
         na, nb = a.count(c), b.count(c)
         # comments attached to a message-literal separator go with it (known class)
-        na -= sum(1 for x in exempt if c in x)
-        if nb < na:
+        if nb < na - sum(1 for x in exempt if c in x):
             keys.add("roundtrip-loses-comment")
         elif nb > na:
             keys.add("roundtrip-duplicates-comment")
+    return keys
+
+
+def token_accounting(src, rt, src_toks, dict_seps):
+    """Apart from the separators of message literals no known class loses or duplicates a non-skippable
+    token.  Text-based like comment_accounting: every token text must occur as often as in the source."""
+    import re, collections
+    norm = lambda t: re.sub(rb"\s+", b" ", t).strip()
+    a, b = norm(src), norm(rt)
+    # the comments of the source are taken out of both texts first (longest first), so that a comment
+    # that went with a dropped separator does not count as lost token text
+    for c in sorted((norm(bytes.fromhex(t)) for c, t, d, r in (src_toks or []) if c in (2, 3)), key=len, reverse=True):
+        a = a.replace(c, b" ", 1)
+        b = b.replace(c, b" ", 1)
+    allowed = collections.Counter(dict_seps)
+    keys = set()
+    for c in set(bytes.fromhex(t) for c, t, d, r in (src_toks or []) if c > 4):
+        na, nb = a.count(c), b.count(c)
+        if nb < na - allowed.get(c, 0):
+            keys.add("roundtrip-loses-token")
+        elif nb > na:
+            keys.add("roundtrip-duplicates-token")
     return keys
 
 
@@ -152,15 +173,11 @@ def classify(src, o, what):
         collect(o["tree"] or [])
         exempt = [texts[i] for i in extra.get("sep_leading", []) if extra["cls"].get(i) in (2, 3)]
         F |= comment_accounting(src, bytes.fromhex(o["rt"]), o.get("src_toks"), exempt)
-        a, b = solid_texts(o.get("src_toks")), solid_texts(o.get("rt_toks"))
-        if a != b:
-            # tokens that are missing from the output although no message-literal separator explains them
-            import difflib
-            sm = difflib.SequenceMatcher(None, a, b, autojunk=False)
-            for tag, i1, i2, j1, j2 in sm.get_opcodes():
-                if tag in ("delete", "replace") and any(c == 8 and not t.startswith(b"/") for c, t in a[i1:i2]) \
-                        and not any(c == 8 for c, t in b[j1:j2]):
-                    F.add("roundtrip-drops-tokens-absent-from-ast")
+        if extra.get("stray_literals"):
+            # three literals in a row are skipped by the parser without a diagnostic; the AST lacks them
+            F.add("roundtrip-drops-tokens-absent-from-ast")
+        else:
+            F |= token_accounting(src, bytes.fromhex(o["rt"]), o.get("src_toks"), extra.get("dict_seps", []))
     else:
         cls = {}
 
